@@ -36,8 +36,10 @@ type (
 	clientSocket struct {
 		id atomic.Value
 
-		state   clientSocketConnectionState
-		stateMu sync.RWMutex
+		state clientSocketConnectionState
+		// Counts the CONNECT packets this socket decided to send. Protected by `stateMu`, like `state`.
+		connectAttempt uint64
+		stateMu        sync.RWMutex
 
 		_pid        atomic.Value
 		_lastOffset atomic.Value
@@ -196,6 +198,7 @@ func (s *clientSocket) registerSubEvents() {
 				return
 			}
 			s.state = clientSocketConnStateConnectPending
+			s.connectAttempt++
 			s.onOpen()
 		}
 		errorFunc ManagerErrorFunc = func(err error) {
@@ -251,6 +254,7 @@ func (s *clientSocket) Connect() {
 	// If already connected, send a CONNECT packet.
 	if managerConnState == clientConnStateConnected && s.state != clientSocketConnStateConnectPending {
 		s.state = clientSocketConnStateConnectPending
+		s.connectAttempt++
 		s.onOpen()
 	}
 }
@@ -355,7 +359,22 @@ func (s *clientSocket) sendConnectPacket(authData any) {
 
 	// This function is called from onOpen, and onOpen can be called via `Manager.openHandlers`.
 	// We fire a seperate goroutine because eioMu is locked inside `Manager.Connect`, which indirectly calls this method.
-	go s.sendControlPacket(parser.PacketTypeConnect, v)
+	//
+	// The packet goes to whatever connection the manager has when that goroutine runs. If the connection
+	// this packet was meant for is over by then, the socket is either disconnected, or it has already decided
+	// to send a CONNECT packet on the next connection: this one is stale then, and a second CONNECT packet for
+	// a namespace makes the server close the connection. (The callers hold `stateMu`.)
+	attempt := s.connectAttempt
+	go func() {
+		s.stateMu.RLock()
+		stale := s.state != clientSocketConnStateConnectPending || s.connectAttempt != attempt
+		s.stateMu.RUnlock()
+		if stale {
+			s.debug.Log("Not sending a stale CONNECT packet")
+			return
+		}
+		s.sendControlPacket(parser.PacketTypeConnect, v)
+	}()
 }
 
 func (s *clientSocket) onPacket(header *parser.PacketHeader, eventName string, decode parser.Decode) {
